@@ -431,8 +431,29 @@ def run_pipeline(case):
     #   target_first  an earlier Target-mode remap (showing only the first scaffold) on the same INDEXED input
     #   flipped_first an earlier remap of the same map with every piece on the opposite strand, untagged
     #   retag         the Pretext scaffolds were first remapped untagged, then re-tagged IN PLACE (rows[i] = ...)
+    #   other_file_first an unrelated AGP with capitalised gap types was parsed earlier in the process
+    #   labelled_input the input Scaffold objects are the output of an earlier round in this process and still
+    #                 carry its labels (tag / haplotype / rank); only the rows are input
     history = case.get("history") or ("target_first" if case.get("pre_run") else None)
     input_asm = None
+    if history == "other_file_first":
+        # an unrelated AGP read earlier in the process, its gap types spelled with capitals (free text in AGP):
+        # interned / cached objects of that file must not leak into this run
+        import io as _io
+
+        from tola.assembly.parser import parse_agp as _pa
+
+        try:
+            _pa(_io.StringIO("".join(f"zz\t{1 + 2 * k}\t{2 + 2 * k}\t{k + 1}\tU\t{n}\t{t}\tyes\tproximity_ligation\n"
+                                      for k, (n, t) in enumerate((n, t) for n in (1, 5, 10, 100, 200, 500) for t in ("Scaffold", "CONTIG")))
+                               .replace("zz\t1\t2\t1\tU", "zz\t1\t2\t1\tW\tq\t1\t2\t+\nzz\t1\t2\t1\tU", 1)), "other")
+        except Exception:
+            pass
+        history = None
+    if history == "labelled_input":
+        for k_, sc_ in enumerate(inp.scaffolds):
+            sc_.tag, sc_.haplotype, sc_.rank = ("Haplotig", "Contaminant", None)[k_ % 3], ("HapZ", None)[k_ % 2], (3, 1, 2)[k_ % 3]
+        history = None
     try:
         input_asm = IndexedAssembly.new_from_assembly(inp)
     except Exception:
